@@ -476,7 +476,7 @@ func c04IsolationScenario(dotu bool) Scenario {
 func init() {
 	register(&Property{ID: "C04", Level: "model_checking",
 		Technique: "explicit-state breadth-first search over protocol histories of a Go reference fid-table model, every transition executed on the real server (replay of the history on a fresh instance) and compared",
-		Rule:      "alphabet of ~60 requests over fid numbers {0,1,2} (attach/auth incl. bad afid, walks full/partial/failing/in place/to a used fid, open/create/read/write/stat/wstat/clunk/remove, each with implementation success or error); BFS to the stated depth from the empty connection, states deduplicated on model state + digest of the server's own fid table; after every event Tstat probes on each fid number; two-connection isolation runs; histories in which a request parked in the implementation is cancelled by Tflush (8 request kinds) and the table is probed, clunked and probed again; histories in which a request is held on a fid while the fid is clunked / removed and its number bound again, then completes (the server's own answers are the history); on the real Ufs every sequence of 4 (thorough 5) requests over walks, clunks, removes and creates of hard links / symlinks naming a second fid, with Tstat probes on every fid after each. states = distinct canonical states, transitions = histories executed",
+		Rule:      "alphabet of ~60 requests over fid numbers {0,1,2} (attach/auth incl. bad afid, walks full/partial/failing/in place/to a used fid, open/create/read/write/stat/wstat/clunk/remove, each with implementation success or error); BFS to the stated depth from the empty connection, states deduplicated on model state + digest of the server's own fid table; after every event Tstat probes on each fid number; two-connection isolation runs; histories in which a request parked in the implementation is cancelled by Tflush (8 request kinds) and the table is probed, clunked and probed again; histories in which a request is held on a fid while the fid is clunked / removed and its number bound again, then completes (the server's own answers are the history); on the real Ufs every sequence of 4 (thorough 5) requests over walks, clunks, removes and creates of hard links / symlinks naming a second fid, with Tstat probes on every fid after each. states = distinct canonical states, transitions = histories executed ; requests naming a fid while the implementation is inside its FidDestroy (clunk / remove x 4 kinds of request x kept or not)",
 		Assumptions: []string{"sequential histories on the default schedule (concurrency around fid destruction is explored by C07/C11)", "the reference model (harness/fidmodel.go) is a correct reading of the protocol rules"},
 		Scenarios:   c04Scenarios, QuickS: 100, ThoroughS: 1500})
 }
